@@ -332,11 +332,11 @@ func parseCondition(firstSnippet *snippet, getSnippet func() (*snippet, error)) 
 	return Where(firstSnippet.text, operator, value.text), nil
 }
 
-var escapeReplacer = regexp.MustCompile(`\\([^\\])`)
+var escapeReplacer = regexp.MustCompile(`(?s)\\(.)`)
 
-// prepToken removes surrounding parenthesis and escape characters.
+// prepToken removes the opening parenthesis of an unterminated last token and escape characters.
 func prepToken(text string) string {
-	return escapeReplacer.ReplaceAllString(strings.Trim(text, "\""), "$1")
+	return escapeReplacer.ReplaceAllString(strings.TrimPrefix(text, "\""), "$1")
 }
 
 // escapeString correctly escapes a snippet for printing.
@@ -344,7 +344,7 @@ func escapeString(token string) string {
 	// check if token contains characters that need to be escaped
 	if strings.ContainsAny(token, "()\"\\\t\r\n ") {
 		// put the token in parenthesis and only escape \ and "
-		return fmt.Sprintf("\"%s\"", strings.ReplaceAll(token, "\"", "\\\""))
+		return fmt.Sprintf("\"%s\"", strings.ReplaceAll(strings.ReplaceAll(token, "\\", "\\\\"), "\"", "\\\""))
 	}
 	return token
 }
